@@ -280,17 +280,10 @@ func (r *MinifyRenamer) AssignNamesByFrequency(minifier *ast.NameMinifier) {
 			// with a "#" character.
 			switch ast.SlotNamespace(ns) {
 			case ast.SlotDefault:
-				for r.reservedNames[name] != 0 {
+				// Also make sure names of symbols used in JSX elements start with a capital letter
+				for r.reservedNames[name] != 0 || (slot.needsCapitalForJSX != 0 && name[0] >= 'a' && name[0] <= 'z') {
 					name = minifier.NumberToMinifiedName(nextName)
 					nextName++
-				}
-
-				// Make sure names of symbols used in JSX elements start with a capital letter
-				if slot.needsCapitalForJSX != 0 {
-					for name[0] >= 'a' && name[0] <= 'z' {
-						name = minifier.NumberToMinifiedName(nextName)
-						nextName++
-					}
 				}
 
 			case ast.SlotLabel:
